@@ -287,6 +287,14 @@ class PyEval(TermEval):
             except TypeError:
                 raise Raises('TypeError: argument of type is not iterable')
             return r if t[1] == 'In' else not r
+        if k == 'call' and t[1] == S('next') and len(t[2]) in (1, 2) and t[2][0][0] in ('accum', 'comp', 'cat', 'list', 'ite'):
+            # next(generator, default): LAZY -- nothing after the first produced element is evaluated
+            found = self._first(t[2][0])
+            if found is not None:
+                return found[0]
+            if len(t[2]) == 2:
+                return self.ev(t[2][1])
+            raise Raises('StopIteration')
         if k == 'call':
             f = t[1]
             if f[0] == 'sym' and f[1] in ('isinstance',) and len(t[2]) == 2:
@@ -357,6 +365,66 @@ class PyEval(TermEval):
         if isinstance(a, bool) or isinstance(b, bool):
             pass
         return super().compare(op, a, b)
+
+    def _first(self, t):
+        """first element of a lazily produced sequence -> (value,) or None"""
+        if t[0] == 'list':
+            return (self.ev(t[1][0]),) if t[1] else None
+        if t[0] == 'cat':
+            for p in t[1]:
+                r = self._first(p)
+                if r is not None:
+                    return r
+            return None
+        if t[0] == 'ite':
+            # sequences grown under successive `if`s:  ite(c, prev ++ more, prev)  -- prev is produced BEFORE c is evaluated
+            c, a, b = t[1], t[2], t[3]
+            def parts(x):
+                return list(x[1]) if x[0] == 'cat' else ([] if x == ('list', ()) else [x])
+            pa, pb = parts(a), parts(b)
+            n = 0
+            while n < len(pa) and n < len(pb) and pa[n] == pb[n]:
+                n += 1
+            for p in pa[:n]:
+                r = self._first(p)
+                if r is not None:
+                    return r
+            rest = pa[n:] if self.truth(self.ev(c)) else pb[n:]
+            for p in rest:
+                r = self._first(p)
+                if r is not None:
+                    return r
+            return None
+        if t[0] == 'comp':
+            return self._first_chain(list(t[1]), 0, t[2])
+        if t[0] == 'accum':
+            r = self._first(t[1]) if t[1][0] in ('list', 'cat', 'comp', 'accum') else None
+            if r is not None:
+                return r
+            for op, idx, val, ch in t[2]:
+                if op not in ('append',):
+                    raise Unknown('lazy sequence built with ' + op)
+                r = self._first_chain(list(ch), 0, val)
+                if r is not None:
+                    return r
+            return None
+        raise Unknown('lazy sequence ' + show(t)[:60])
+
+    def _first_chain(self, chain, k, val):
+        if k == len(chain):
+            return (self.ev(val),)
+        b, g = chain[k]
+        dom = self.ev(b[3])
+        if isinstance(dom, dict):
+            dom = list(dom.keys())
+        for pos, el in enumerate(dom):
+            self.benv[b[1]] = el
+            self.benv[('ix', b[1])] = pos
+            if g == TRUE or self.truth(self.ev(g)):
+                r = self._first_chain(chain, k + 1, val)
+                if r is not None:
+                    return r
+        return None
 
     def _accum_entry(self, box, op, idx, val, chain, k):
         if k == len(chain):
@@ -477,6 +545,8 @@ def simulate(pe, effs, is_error):
                         continue
                     raise
         elif k in ('call', 'iter'):
+            if k == 'call' and getattr(e, 'target', None) is not None and _is_generator(e.target):
+                continue          # a generator body runs lazily, driven by its consumer: its conditions are evaluated through the consuming term
             try:
                 simulate(pe, e.body, is_error)
             except Leave as lv:
@@ -490,3 +560,11 @@ def simulate(pe, effs, is_error):
             raise Raises('explicit raise at %s' % e.loc)
         elif is_error(e):
             raise Refused(e)
+
+
+def _is_generator(func):
+    import ast as _ast
+    for n in _ast.walk(func.node):
+        if isinstance(n, (_ast.Yield, _ast.YieldFrom)):
+            return True
+    return False
